@@ -11,6 +11,7 @@ def dispatch : P String := do
     | "mask" => compMask
     | "des" => compDes
     | "variant" => compVariant
+    | "surv" => compSurv
     | _ => pure s!"err unknown component {comp}"
   return s!"{seq} {comp} {body}"
 
